@@ -85,6 +85,25 @@ CATALOGUE = [
 ]
 
 
+# canonical encodings written out BY HAND from X.690 (not produced by the library): decoding one and encoding
+# the result must reproduce it byte for byte, so an encoder that is consistently wrong (drops an equal SET OF
+# member, orders a SET by declaration) cannot hide behind agreeing with itself
+GOLDEN = [
+    (3, [1, 256, -1, 1], '310d0201010201010201ff02020100', '31800201010201010201ff020201000000'),
+    (3, [3, 2, 1, 2, 3], '310f020101020102020102020103020103', '3180020101020102020102020103020103' + '0000'),
+    (3, [], '3100', '31800000'),
+    (4, ['00', '', '0000', 'ff'], '310c04000401000401ff04020000', '318004000401000401ff040200000000'),
+    (4, ['61', '6161', '61'], '310a0401610401610402' + '6161', '31800401610401610402' + '6161' + '0000'),
+    (0, {'id': 7}, '3003020107', '30800201070000'),
+    (0, {'id': 7, 'path': [1, 2]}, '3003020107', '30800201070000'),
+    (0, {'id': 7, 'path': [2, 1]}, '300b0201073006020102020101', '308002010730800201020201010000' + '0000'),
+    (0, {'id': 7, 'path': []}, '30050201073000', '3080020107308000000000'),
+    (5, {'z': 1, 'x': True}, '31060101ff820101', '31800101ff8201010000'),
+    (5, {'z': 1, 'y': '00', 'x': False, 'w': 'w'}, '310b0101006103040100820101', '31800101006180040100' + '0000' + '820101' + '0000'),
+    (5, {'z': -1, 'x': True, 'w': 'v'}, '31090101ff8201ffc00176', '31800101ff8201ffc001760000'),
+]
+
+
 def _gen_mid_reads(r):
     if r.random() < 0.4:
         op = r.choice(MID_READS)         # the same read-only use after every construction step
@@ -94,6 +113,11 @@ def _gen_mid_reads(r):
 
 def _gen_catalogue(r):
     desc, values = r.choice(CATALOGUE)
+    golden = None
+    if r.random() < 0.3:
+        ci, gv, gd, gc = r.choice(GOLDEN)
+        desc, values = CATALOGUE[ci][0], [gv]
+        golden = {'der': gd, 'cer': gc}
     reps = []
     routes = ['canonical', 'permuted', 'permuted', 'defaults-explicit', 'defaults-implicit', 'native-args',
               'decoded:ber', 'decoded:ber-indef', 'decoded:der', 'clone', 'inplace', 'inplace', 'overwrite', 'subtyped', 'shared']
@@ -108,8 +132,11 @@ def _gen_catalogue(r):
     if all(x['route'] == reps[0]['route'] for x in reps):
         reps[0]['route'] = 'canonical'
         reps[-1]['route'] = 'permuted'
-    return {'check': ID, 'desc': copy.deepcopy(desc), 'value': copy.deepcopy(r.choice(values)), 'replicas': reps,
-            'catalogue': True}
+    pl = {'check': ID, 'desc': copy.deepcopy(desc), 'value': copy.deepcopy(r.choice(values)), 'replicas': reps,
+          'catalogue': True}
+    if golden:
+        pl['golden'] = golden
+    return pl
 
 
 def gen_plan(r, index, tier):
@@ -661,6 +688,28 @@ def execute(plan):
             if e2 != e or rest:
                 raise W.Violation('reencoding-decoded-canonical-differs', codec=name, first=_h(e), second=_h(e2),
                                   remainder=_h(bytes(rest)))
+        # hand-written canonical bytes: decode, encode, compare; and every replica must have produced them
+        for name, enc, dec in (('der', denc, ddec), ('cer', cenc, cdec)):
+            g = (plan.get('golden') or {}).get(name)
+            if not g:
+                continue
+            g = bytes.fromhex(g)
+            ctr['golden.%s' % name] = 1
+            try:
+                back, rest = dec.decode(g, asn1Spec=schema)
+            except Exception as ex:
+                ctr['probe.golden-not-decodable.%s' % name] = 1       # C02/C03 territory
+                continue
+            if rest or U.absval_canon(back) != target:
+                ctr['probe.golden-decodes-to-other-value.%s' % name] = 1
+                continue
+            e2 = _enc(enc, back)
+            if e2 != g:
+                raise W.Violation('reencoding-decoded-canonical-differs', codec=name, first=_h(g), second=_h(e2), golden=True)
+            first = (ders if name == 'der' else cers)[0]
+            if first[2] != g:
+                raise W.Violation('replicas-diverge', codec=name, a='hand-written', b=first[1], a_bytes=_h(g), b_bytes=_h(first[2]),
+                                  routes=sorted(['golden', first[1].split(':')[0]]))
     except W.Violation as viol:
         sig = [viol.invariant, viol.detail.get('codec'), viol.detail.get('op') or '/'.join(viol.detail.get('routes', []))]
         return common.violation_result(viol, sig, trace, ctr, None, None, {'kind': 'none'}, None)
